@@ -2,6 +2,9 @@ mod api;
 mod common;
 mod fixtures;
 mod refmodel;
+mod scen_codec;
+mod scen_proof;
+mod scen_robust;
 mod scen_sig;
 
 use zksim_core::runner::Check;
@@ -38,6 +41,57 @@ static C02: Check = Check {
     exhaustive_after: Some(16),
 };
 
+static C03: Check = Check {
+    property: "C03",
+    level: "exploration",
+    rule: "one run = 1-2 presentation sessions Issuer -> Holder -> Verifier; the Holder's proof_gen runs the production randomness path on its own thread fed by the node's deterministic entropy stream (with injected EINTR / short reads), possibly after a holder restart and with tick preemption inside create_generators / messages_to_scalar / calculate_random_scalars; disclosure sets: all 2^L subsets in rotation for L<=6, none/all/random for larger L; header, ph in {absent, empty, bytes}; neutral faults only on the Presentation frame (absent<->empty toggles, JSON codec, frame duplication, verifier restart); oracle MustAccept + proof length == 272+32U; a case = one delivered presentation",
+    quick_runs: 500,
+    thorough_runs: 2000,
+    run: scen_proof::run_c03,
+    assumptions: &["'reveals nothing else' is checked as the length formula only"],
+    real: REAL,
+    simulated: SIMULATED,
+    exhaustive_after: None,
+};
+static C04: Check = Check {
+    property: "C04",
+    level: "fault_enumeration",
+    rule: "one run = one honest presentation, then the corrupting catalogue on the Presentation frame: bit flips of the 272 fixed octets in 16 slices (16 consecutive runs enumerate all 2176) plus all 256 bits of one m^ response; truncation/extension by whole scalars; dropped/inserted response; every single-element fault of the disclosed-message list; every integer corruption of every index; permuted / dropped / duplicated / added (index, message) pairs; 9 header and 9 ph faults; header<->ph swap; misroute to other suite / blind interface / other key / stored-pk bit flips; and Mallory's frames built from public data only (8 degenerate-element families x 3 claimed statements, through from_bytes and through the JSON decoder); verdict by content; a case = one delivered frame",
+    quick_runs: 48,
+    thorough_runs: 480,
+    run: scen_proof::run_c04,
+    assumptions: &["a MustReject frame is accepted by correct code with probability <= 2^-128", "consistently permuted/duplicated (index,message) pairs are DontCare (DESIGN.md Appendix A.1)", "Mallory computes the verifier's domain and challenge with the spec model"],
+    real: REAL,
+    simulated: SIMULATED,
+    exhaustive_after: Some(16),
+};
+
+static C08: Check = Check {
+    property: "C08",
+    level: "fault_enumeration",
+    rule: "the space {15 octet-string entry points} x {7 content classes: honest (truncated below / extended by scalar-shaped material above its length), honest with one bit flipped, zeros, 0xFF, identity pattern, PRNG, honest prefix + maxed scalars} x {every length 0..=1024} (fixed-size parameters: 64 content variants at the only admissible length), plus {6 serde_json decoders} x {every truncation of the honest JSON, every value leaf replaced by 11 wrong-type tokens, huge arrays/strings}, plus corrupted integers (every index entry, L, update_index over {0,1,L-1,L,L+1,+-1,2^31,2^32,2^63,MAX-1,MAX}) and malformed index lists, is split by run index: run k enumerates one (entry, class) completely; 129 consecutive runs cover the whole space; a case = one delivered frame; the victim node must return, within 64+4*measure ticks and 1MiB+16KiB*measure requested bytes (measure = ceil(octets/32) + index entries + trusted counts)",
+    quick_runs: 129,
+    thorough_runs: 258,
+    run: scen_robust::run_c08,
+    assumptions: &["overflow-checks = on in the harness profile", "work is observed as ticks of the guarded hook in create_generators / messages_to_scalar / calculate_random_scalars / from_bytes loops, not wall time", "allocation is bytes requested per step, measured by a counting allocator; allocation failure is not injected", "n of update_signature and the caller's own message lists are trusted inputs"],
+    real: REAL,
+    simulated: SIMULATED,
+    exhaustive_after: Some(129),
+};
+
+static C09: Check = Check {
+    property: "C09",
+    level: "fault_enumeration",
+    rule: "per artefact type {PublicKey, SecretKey, Signature, BlindSignature, PoKSignature, ZKPoK, Commitment, BlindFactor} and ciphersuite, around an honest encoding: (part 0) store round trips across a node restart in every codec (octets, JSON, pk coordinates), extension by 1..=64 octets x 3 content classes, truncation to every length; (part 1) every single-bit flip; (part 2) every non-canonical / forbidden substitution in every point and scalar slot (scalar+r, +2r, =r, =2^256-1, =0, =r-1; identity, identity+sort flag, infinity flag with non-zero x, compression flag cleared, infinity flag on a point, non-subgroup point, off-curve x, x>=p, sort flag flipped); run index -> (suite, type, part): 48 consecutive runs enumerate everything; oracle: accepted => re-encoding equals the delivered octets, forbidden class => Err; a case = one delivered octet string that reached a decoder (wrong lengths for fixed-size array parameters are excluded by the type and not counted)",
+    quick_runs: 48,
+    thorough_runs: 192,
+    run: scen_codec::run_c09,
+    assumptions: &["decoders are pure functions of their octets; the simulator contributes the restart/reload observation and replay", "forbidden classes as listed by the property: wrong length, trailing bytes, scalar >= r, off-curve, wrong subgroup, identity for pk / A / Abar,Bbar,D, e = 0"],
+    real: REAL,
+    simulated: SIMULATED,
+    exhaustive_after: Some(48),
+};
+
 fn node_init() {
     zkryptium::verif_hooks::install(Some(sim::on_tick));
 }
@@ -47,16 +101,29 @@ fn main() {
     sim::install_quiet_panic_hook();
     sim::set_node_init(node_init);
     let args: Vec<String> = std::env::args().collect();
+    if args.get(1).map(|s| s.as_str()) == Some("debugjson") { debug_json(); return; }
     if args.get(1).map(|s| s.as_str()) == Some("fixtures") {
         match fixtures::check_all() {
             Ok(n) => { println!("refmodel reproduces {n} fixture vectors"); std::process::exit(0) }
             Err(e) => { eprintln!("refmodel != fixtures: {e} (harness error)"); std::process::exit(2) }
         }
     }
-    let checks: Vec<&Check> = vec![&C01, &C02];
+    let checks: Vec<&Check> = vec![&C01, &C02, &C03, &C04, &C08, &C09];
     if let Err(e) = fixtures::check_all() {
         eprintln!("refmodel != fixtures: {e} (harness error)");
         std::process::exit(2);
     }
     std::process::exit(zksim_core::runner::cli(&checks));
+}
+
+#[allow(dead_code)]
+pub fn debug_json() {
+    use crate::api::*;
+    let s = Suite::Sha256;
+    let (sk, pk) = keygen(s, &[1u8; 32], None, None).unwrap();
+    let msgs = Some(vec![b"a".to_vec(), b"b".to_vec()]);
+    let sig = sign(s, &sk, &pk, &None, &msgs).unwrap();
+    let p = proof_gen(s, &pk, &sig, &None, &None, &msgs, &Some(vec![0])).unwrap();
+    println!("{}", proof_to_json(s, &p).unwrap());
+    println!("{}", hex::encode(&p));
 }
